@@ -364,6 +364,21 @@ func (c *MemConn) Cut(asEOF, dropPending bool) {
 	}
 }
 
+// CutWith breaks the connection in both directions with the given error (for instance
+// ErrTimeout: a path that died the way the kernel reports ETIMEDOUT, a net.Error whose
+// Timeout() is true).
+func (c *MemConn) CutWith(err error, dropPending bool) {
+	for _, h := range []*half{c.rd, c.wr} {
+		h.mu.Lock()
+		h.cutErr = err
+		if dropPending {
+			h.buf = nil
+		}
+		h.broadcast()
+		h.mu.Unlock()
+	}
+}
+
 // Inject appends bytes to what this end will read (as if the peer had written them).
 func (c *MemConn) Inject(b []byte) {
 	c.rd.mu.Lock()
